@@ -158,6 +158,9 @@ def classify(e, scope, depth=0, seen=None):
             nm = e["args"][0]["segs"][-1]
             if nm in SANITISERS:
                 return Cls("safe", SANITISERS[nm])
+        if m in ("chain", "zip") and e["args"]:
+            # the elements of both sequences
+            return join([classify(e["recv"], scope, depth + 1, seen)] + [classify(a_, scope, depth + 1, seen) for a_ in e["args"]])
         if m in ("join", "collect", "map", "iter", "into_iter", "cloned", "copied", "rev"):
             return classify(e["recv"], scope, depth + 1, seen)
         return classify_call_result(m, e, scope, depth, seen)
@@ -255,6 +258,11 @@ def classify_call_result(name, e, scope, depth, seen):
             ty = r[1] or ""
             if "JsIdent" in ty:
                 return Cls("safe", "generated identifier(s) returned by a callback typed `%s`" % ty[:50])
+        if r and r[0] == "let" and r[1] is not None and r[1].get("k") == "closure":
+            # a local closure that picks between fragments (`|flag| if flag { "!0" } else { "!1" }`): what its body yields;
+            # anything derived from its parameters stays unbound and is therefore not accepted
+            cb_ = r[1]["body"]
+            return classify_block(cb_, scope, depth, seen) if cb_.get("k") == "block" else classify(cb_, scope, depth + 1, seen)
     cands = [f for f in scope.all_fns if f["name"] == name]
     if len(cands) > 1:
         nargs = len(e.get("args", []))
